@@ -857,6 +857,11 @@ func (m *Machine) call(a *activation, in *ssa.Call) {
 	if callee != nil && m.getUint(a, in, callee, args) {
 		return
 	}
+	if callee != nil && callee.String() == "math.Float32frombits" && len(args) == 1 && args[0].K == Int {
+		// the float is kept as its bit pattern (tagged), enough to tell a definite zero from a definite non-zero
+		m.set(in, Val{K: Int, I: args[0].I & 0xffffffff, S: "float32bits"})
+		return
+	}
 	if callee != nil && pureExternal(callee) {
 		m.set(in, externalResult(callee, in))
 		return
